@@ -203,6 +203,9 @@ class Chipset(object):
 
         if frame.startswith(self.SOF + b'\xFF\xFF'):
             # extended frame
+            if len(frame) < 10:
+                self.log.error("frame lenght below minimum")
+                raise IOError(errno.EIO, os.strerror(errno.EIO))
             if sum(frame[5:8]) & 0xFF != 0:
                 self.log.error("frame lenght checksum error")
                 raise IOError(errno.EIO, os.strerror(errno.EIO))
@@ -212,6 +215,9 @@ class Chipset(object):
             del frame[0:8]
         elif frame.startswith(self.SOF):
             # normal frame
+            if len(frame) < 7:
+                self.log.error("frame lenght below minimum")
+                raise IOError(errno.EIO, os.strerror(errno.EIO))
             if sum(frame[3:5]) & 0xFF != 0:
                 self.log.error("frame lenght checksum error")
                 raise IOError(errno.EIO, os.strerror(errno.EIO))
@@ -223,8 +229,12 @@ class Chipset(object):
             self.log.debug("invalid frame start sequence")
             raise IOError(errno.EIO, os.strerror(errno.EIO))
 
-        if not sum(frame) & 0xFF == 0:
+        if not sum(frame[:-1]) & 0xFF == 0:
             self.log.error("frame data checksum error")
+            raise IOError(errno.EIO, os.strerror(errno.EIO))
+
+        if not frame[-1] == 0:
+            self.log.error("frame postamble error")
             raise IOError(errno.EIO, os.strerror(errno.EIO))
 
         if frame[0] == 0x7F:  # error frame
